@@ -126,7 +126,7 @@ def nt_c09(main):
 
 
 reg(Prop('C09', {'quick': 3000, 'thorough': 40000}, {'quick': 100, 'thorough': 1500}, RULE_C09,
-         cfg={'quick': {'max_size': 30}, 'thorough': {'max_size': 60}}, nontrivial=nt_c09))
+         cfg={'quick': {'max_size': 30}, 'thorough': {'max_size': 60, 'big_real': True}}, nontrivial=nt_c09, timeout=180))
 
 
 RULE_C20 = ('one evaluation = one schedule of one program pair executed in a fresh fork of the cold zygote: thread A '
